@@ -39,7 +39,9 @@ func subselector(r *vh.Rng, n int) map[string]string {
 }
 
 type ctl struct {
-	v *k8s.VerifC09
+	v    *k8s.VerifC09
+	vs   *conf_v1.VirtualServer
+	vsrs []*conf_v1.VirtualServerRoute
 }
 
 var ctlCache = map[int]*ctl{}
@@ -106,6 +108,12 @@ func getCtl(c *Case) *ctl {
 // buildVSCtl: one sync of the controller for the VirtualServer of the case
 func buildVSCtl(c *Case) *configs.VirtualServerEx {
 	k := getCtl(c)
+	if c.P["reuse"] > 0 { // the stored objects themselves, sync after sync
+		if k.vs == nil {
+			k.vs, k.vsrs = vsObjects(c)
+		}
+		return k.v.CreateVirtualServerEx(k.vs, k.vsrs)
+	}
 	vs, vsrs := vsObjects(c)
 	return k.v.CreateVirtualServerEx(vs, vsrs)
 }
